@@ -17,15 +17,16 @@ theorem parseLoop_cons (cc : CharClass) (P : Profile) (n : Nat) (s : List Char) 
 
 theorem parseLoop_end (cc : CharClass) (P : Profile) (n : Nat) : parseLoop cc P (n + 1) [] = .ok [] := by
   rw [parseLoop]
-  simp [next, nextWith]
+  simp [next, nextAt, nextWith]
 
 /-- the top-level loop on a printed pattern list with pending ordinary text -/
 theorem parseLoop_pats (cc : CharClass) (hcc : CCAscii cc) (P : Profile) (hus : P.underscoreNames = true)
     (hP : P.doubledCloseParen = true) :
     ∀ (ps : List Pat) (pre : List Char) (n : Nat), wfPats P.wordBits false ps = true →
+      depthPats ps ≤ P.maxDepth →
       pre.all nonSpecial = true → (pre ++ showPats ps).length < n →
       parseLoop cc P n (pre ++ showPats ps) = .ok (piecesOf pre ps)
-  | [], pre, n, _, hpre, hlen => by
+  | [], pre, n, _, _, hpre, hlen => by
     rw [showPats_nil, piecesOf_nil]
     rw [showPats_nil] at hlen
     simp only [List.append_nil] at hlen ⊢
@@ -37,14 +38,17 @@ theorem parseLoop_pats (cc : CharClass) (hcc : CCAscii cc) (P : Profile) (hus : 
     | cons c t =>
       simp only [List.all_cons, Bool.and_eq_true] at hpre
       have hc : isSpecial c = false := by simpa [nonSpecial] using hpre.1
-      have hn := next_text cc P c t [] hc hpre.2 (by simp [StartsSpecial])
+      have hn : next cc P (c :: (t ++ [])) = _ := next_text cc P 0 c t [] hc hpre.2 (by simp [StartsSpecial])
       simp only [List.append_nil] at hn
       simp only [List.length_cons] at hlen
       match n, hlen with
       | n + 2, _ =>
         rw [parseLoop_cons cc P (n + 1) _ _ _ hn, parseLoop_end]
         rfl
-  | p :: ps, pre, n, hwf, hpre, hlen => by
+  | p :: ps, pre, n, hwf, hdep, hpre, hlen => by
+    rw [depthPats_cons] at hdep
+    have hdp : depthPat p + 0 ≤ P.maxDepth := by omega
+    have hdps : depthPats ps ≤ P.maxDepth := by omega
     rw [wfPats_cons] at hwf
     simp only [Bool.and_eq_true] at hwf
     obtain ⟨hp, hps⟩ := hwf
@@ -59,12 +63,13 @@ theorem parseLoop_pats (cc : CharClass) (hcc : CCAscii cc) (P : Profile) (hus : 
       rw [hc] at hns
       have hshow : showPat (.lit l) = [c] := by rw [showPat_lit]; simp [showLit, he, hc]
       rw [hshow] at hlen ⊢
-      have ih := parseLoop_pats cc hcc P hus hP ps (pre ++ [c]) n hps (all_nonSpecial_snoc hpre hns)
+      have ih := parseLoop_pats cc hcc P hus hP ps (pre ++ [c]) n hps hdps (all_nonSpecial_snoc hpre hns)
         (by simpa using hlen)
       simpa using ih
     | none =>
       obtain ⟨hd, tl, hshape, hsp, _⟩ := showPat_head P.wordBits false p (showPats ps) hp hpc
-      have hn := next_nonplain cc hcc P hus hP p false hp hpc (showPats ps)
+      have hn : next cc P (showPat p ++ showPats ps) = _ :=
+        next_nonplain cc hcc P hus hP p 0 false hp hpc hdp (showPats ps)
       have hlt : (showPats ps).length < (hd :: tl).length := by
         have hs := next_shrinks cc P (showPat p ++ showPats ps)
         rw [hn] at hs
@@ -78,19 +83,19 @@ theorem parseLoop_pats (cc : CharClass) (hcc : CCAscii cc) (P : Profile) (hus : 
         match n, hlen with
         | n + 1, hlen =>
           rw [parseLoop_cons cc P n _ _ _ hn]
-          have ih := parseLoop_pats cc hcc P hus hP ps [] n hps (by simp) (by simp at hlen hlt ⊢; omega)
+          have ih := parseLoop_pats cc hcc P hus hP ps [] n hps hdps (by simp) (by simp at hlen hlt ⊢; omega)
           simp only [List.nil_append] at ih
           rw [ih]
       | cons c t =>
         simp only [List.all_cons, Bool.and_eq_true] at hpre
         have hc : isSpecial c = false := by simpa [nonSpecial] using hpre.1
-        have hn0 := next_text cc P c t (hd :: tl) hc hpre.2 hsp
+        have hn0 : next cc P (c :: (t ++ hd :: tl)) = _ := next_text cc P 0 c t (hd :: tl) hc hpre.2 hsp
         simp only [List.cons_append, List.length_cons, List.length_append] at hlen hlt
         match n, hlen with
         | n + 2, hlen =>
           simp only [List.cons_append]
           rw [parseLoop_cons cc P (n + 1) _ _ _ hn0, parseLoop_cons cc P n _ _ _ hn]
-          have ih := parseLoop_pats cc hcc P hus hP ps [] n hps (by simp) (by simp; omega)
+          have ih := parseLoop_pats cc hcc P hus hP ps [] n hps hdps (by simp) (by simp; omega)
           simp only [List.nil_append] at ih
           rw [ih]
           rfl
@@ -100,7 +105,7 @@ theorem parseLoop_pats (cc : CharClass) (hcc : CCAscii cc) (P : Profile) (hus : 
 theorem parse_show (cc : CharClass) (hcc : CCAscii cc) (P : Profile) (hus : P.underscoreNames = true)
     (hP : P.doubledCloseParen = true) (ps : List Pat) (h : WF P ps) :
     parse cc P (showPats ps) = .ok (piecesOf [] ps) := by
-  have := parseLoop_pats cc hcc P hus hP ps [] ((showPats ps).length + 1) h (by simp) (by simp)
+  have := parseLoop_pats cc hcc P hus hP ps [] ((showPats ps).length + 1) h.1 h.2 (by simp) (by simp)
   simpa [parse] using this
 
 end Log4rs.Pattern.Parse
